@@ -122,6 +122,63 @@ def est_via_helper(ctx, facts, fid):
     return False
 
 
+def est_via_zip(ctx, facts, fid):
+    """a.iter().zip(b.iter()).filter(|(x, y)| x == y).count() — the other accepted counting idiom"""
+    fn = facts.fn(fid)
+    t = tree_of(fn)
+    where = hirq.loc(fn)
+    R = resolver_of(fn)
+    counts = [n for n in user_nodes(fn) if n["k"] == "MethodCall" and n["name"] == "count" and not n["args"]]
+    if len(counts) != 1:
+        return False
+    c = counts[0]
+    f = nf.strip(c["recv"])
+    if f["k"] != "MethodCall" or f["name"] != "filter" or len(f["args"]) != 1 or f["args"][0]["k"] != "Closure":
+        return False
+    z = nf.strip(f["recv"])
+    if z["k"] != "MethodCall" or z["name"] != "zip" or len(z["args"]) != 1:
+        return False
+
+    def base(e):
+        e = nf.strip(e)
+        while e["k"] == "MethodCall" and e["name"] in ("iter", "into_iter") and not e["args"]:
+            e = nf.strip(e["recv"])
+        return nf.nf(e, True)
+    a, b = base(z["recv"]), base(z["args"][0])
+    cl = f["args"][0]
+    if len(cl["params"]) != 1 or a == b:
+        return False
+    pt = cl["params"][0]
+    while pt["k"] in ("Ref",):
+        pt = pt["sub"]
+    if pt["k"] != "Tuple" or len(pt["subs"]) != 2:
+        return False
+    x, y = hirq.show_pat(pt["subs"][0]), hirq.show_pat(pt["subs"][1])
+    body = nf.strip(cl["body"])
+    if body["k"] != "Binary" or body["op"] != "==" or {nf.nf(body["l"], True), nf.nf(body["r"], True)} != {x, y}:
+        return False
+    lens = {"%s.len()" % a, "%s.len()" % b}
+    fs = nf.early_facts(t, c)
+    if not any(fc[0] == "cmp" and fc[2] == "==" and {_resolve(fn, fc[1]), _resolve(fn, fc[3])} == lens for fc in fs):
+        ctx.violation("EST", fid, "F1 length check", hirq.loc(c), "zip() silently stops at the shorter sketch and no length comparison that panics or returns Err precedes it (facts: %s)" % fs[:3])
+        return True
+    bodyb = fn["hir"]
+    rets = [n["e"] for n in user_nodes(fn) if n["k"] == "Ret" and "e" in n and n["sp"][1] > c["sp"][1]] + ([bodyb["expr"]] if "expr" in bodyb else [])
+    if len(rets) != 1:
+        return False
+    r = nf.nf(rets[0], True, res=R)
+    r = re.sub(r"^std::prelude::v1::Ok\((.*)\)$", r"\1", r)
+    r = r.replace("num::NumCast::from(", "(").replace(").unwrap()", ")")
+    while r.startswith("(") and r.endswith(")") and _balanced(r[1:-1]):
+        r = r[1:-1]
+    cn = nf.nf(c, True, res=R)
+    if any(r in ("%s / %s" % (cn, l), "(%s) / %s" % (cn, l)) for l in lens):
+        ctx.ok("EST", fid, "length check; %s.zip(%s).filter(==).count() / len" % (a, b), where)
+        return True
+    ctx.violation("EST", fid, "F4 result", hirq.loc(rets[0]), "the result is `%s`; expected <count> / <sketch length>" % r[:100])
+    return True
+
+
 def est_template(ctx, facts, fid):
     fn = facts.fn(fid)
     t = tree_of(fn)
@@ -131,6 +188,8 @@ def est_template(ctx, facts, fid):
         hid = est_via_helper(ctx, facts, fid)
         if hid:
             return ("helper", hid)
+        if est_via_zip(ctx, facts, fid):
+            return ("zip", None)
     if len(fls) != 1 or [n for n in t.nodes if n["k"] == "Loop" and not hirq.in_log_macro(n)] != [fls[0]["loop"]]:
         ctx.violation("EST", fid, "F2 loop", where, "expected exactly one for loop, found %d loop(s)" % len([n for n in t.nodes if n["k"] == "Loop"]))
         return None
